@@ -18,14 +18,29 @@ def rule_implicit_wiring(rep: Report, repo: Repo):
     for n in own_nodes(f):
         if isinstance(n, ast.Assign) and isinstance(n.targets[0], ast.Name):
             asg.setdefault(n.targets[0].id, []).append(n)
-    # (a) implicit <=> fewer vectors than the dimension
-    ui = [norm(a.value) for a in asg.get("use_implicit", [])]
-    rep.check(sorted(ui) == sorted(["False", "num_vectors < dim"]), RULE,
-              f"{MOD}::block_diagonalize implicit mode <=> the given vectors do not span the space", str(ui), loc(f))
-    nv = [norm(a.value) for a in asg.get("num_vectors", [])]
-    dm = [norm(a.value) for a in asg.get("dim", [])]
-    rep.check(nv == ["sum((vecs.shape[1] for vecs in right_subspaces))"] and dm == ["right_subspaces[0].shape[0]"], RULE,
-              f"{MOD}::block_diagonalize counts all explicit vectors against the ambient dimension", f"{nv} / {dm}", loc(f))
+    # (a) implicit <=> fewer vectors than the dimension (decided on resolved, canonical expressions)
+    from .resolve import resolved
+    from .sem import ctext
+    otb = [n for n in own_nodes(f) if isinstance(n, ast.Call) and call_name(n) == "operator_to_BlockSeries"]
+    flags = {norm(k.value) for c in otb for k in c.keywords if k.arg == "implicit"}
+    if len(flags) != 1 or not next(iter(flags)).isidentifier():
+        raise AnalysisError(RULE, f"implicit flag passed to operator_to_BlockSeries is not one local name: {sorted(flags)}")
+    UI = next(iter(flags))
+    un = [s_ for s_ in own_nodes(f) if isinstance(s_, ast.Assign) and isinstance(s_.targets[0], ast.Tuple)
+          and isinstance(s_.value, ast.Call) and call_name(s_.value) == "_normalize_subspace_eigenvectors"]
+    if len(un) != 1:
+        raise AnalysisError(RULE, "unpacking of _normalize_subspace_eigenvectors(...) not found in block_diagonalize")
+    RS = norm(un[0].targets[0].elts[0])
+    got, want = [], None
+    for a_ in asg.get(UI, []):
+        env = env_at(a_, f)
+        got.append(ctext(resolved(a_.value, env)))
+        if norm(a_.value) != "False":
+            rs = rtext(ast.Name(id=RS, ctx=ast.Load()), env)
+            want = f"sum((_v0.shape[1] for _v0 in {rs})) < {rs}[0].shape[0]"
+    rep.check(want is not None and sorted(got) == sorted(["False", want]), RULE,
+              f"{MOD}::block_diagonalize implicit mode <=> the given vectors do not span the space",
+              f"`{UI}` is assigned {[g[:150] for g in got]}; required False by default and (number of right vectors) < (ambient dimension)", loc(f))
     # (b) LinearOperator dispatch mask
     ulo = [norm(a.value) for a in asg.get("use_linear_operator", [])]
     rep.check(ulo == ["np.zeros(H.shape, dtype=bool)"], RULE, f"{MOD}::block_diagonalize use_linear_operator starts all-False over the block grid", str(ulo), loc(f))
@@ -58,12 +73,12 @@ def rule_implicit_wiring(rep: Report, repo: Repo):
     rep.check(ok, RULE, f"{MOD}::block_diagonalize KPM solver gets H_0 and the explicit subspaces", "", loc(c[0] if c else f))
     c = calls.get("operator_to_BlockSeries", [])
     k = kw(c[0]) if c else {}
-    ok = len(c) == 1 and k.get("implicit") == "use_implicit" and k.get("subspace_eigenvectors") == "subspace_eigenvectors" \
+    ok = len(c) == 1 and k.get("implicit") == UI and k.get("subspace_eigenvectors") == "subspace_eigenvectors" \
         and k.get("subspace_indices") == "subspace_indices" and k.get("hermitian") == "hermitian" and k.get("atol") == "atol" \
         and k.get("symbols") == "symbols"
     rep.check(ok, RULE, f"{MOD}::block_diagonalize normalises H with the same subspaces, implicit flag and hermitian flag", str(k), loc(c[0] if c else f))
     c = calls.get("_extract_diagonal", [])
-    ok = len(c) == 1 and pos(c[0]) == ["H", "atol", "use_implicit", "operators"]
+    ok = len(c) == 1 and pos(c[0]) == ["H", "atol", UI, "operators"]
     rep.check(ok, RULE, f"{MOD}::block_diagonalize energies are extracted from the explicit blocks only (implicit flag passed)", "", loc(c[0] if c else f))
     ed = repo.find(f"{MOD}::_extract_diagonal", RULE)
     di = [n for n in own_nodes(ed) if isinstance(n, ast.Assign) and norm(n.targets[0]) == "diag_indices"]
